@@ -285,15 +285,17 @@ def _renumber_after_drop(ops, dropped_key):
     return out
 
 
-def shrink(scn, still_fails, budget=150):
-    """greedy: drop trailing ops, then single ops (renumbering keys), then simplify fields"""
+def shrink(scn, still_fails, budget=150, seconds=75.0):
+    """greedy: drop trailing ops, then single ops (renumbering keys), then simplify fields; bounded by a number of
+    attempts and by wall time (an implementation that hangs makes every attempt slow)"""
     scn = json.loads(json.dumps(runlib.strip_private(scn)))
     tries = 0
+    deadline = time.time() + seconds
 
     def attempt(cand):
         nonlocal tries
         tries += 1
-        if tries > budget:
+        if tries > budget or time.time() > deadline:
             return False
         try:
             return still_fails(json.loads(json.dumps(cand)))
